@@ -1,6 +1,6 @@
 (* Extract/Codec.v — S-expression encoders / decoders for the model types (Appendix B of DESIGN) *)
 From Coq Require Import List Bool Ascii String ZArith.
-From FM Require Import Base.Result Base.Str Base.Sexp Base.AstOp Model.Ast Model.FM Model.PFM Format.Xml.
+From FM Require Import Base.Result Base.Str Base.Sexp Base.AstOp Model.Ast Model.FM Model.PFM Format.Xml Format.Uvl.
 Import ListNotations.
 Open Scope string_scope.
 
@@ -229,6 +229,163 @@ Fixpoint d_xml (s : sexp) : option xml :=
             omap d_xml kids with
       | Some a', Some txt', Some kids' => Some (Elem t a' txt' kids')
       | _, _, _ => None
+      end
+  | _ => None
+  end.
+
+(* ---- UVL concrete syntax trees ---- *)
+Fixpoint e_uvalue (v : uvalue) : sexp :=
+  match v with
+  | UVBool t => e_tag "vb" [SStr t]
+  | UVFloat t r => e_tag "vf" [SStr t; SStr r]
+  | UVInt t => e_tag "vi" [SStr t]
+  | UVStr t => e_tag "vs" [SStr t]
+  | UVAttrs l => e_tag "va" (map e_uattr l)
+  | UVVector l => e_tag "vv" (map e_uvalue l)
+  end
+with e_uattr (a : uattr) : sexp :=
+  match a with
+  | UAValue k v => e_tag "av" [SStr k; match v with Some x => e_uvalue x | None => SAtom "nil" end]
+  | UAConstraint => e_tag "ac" []
+  | UAOther => e_tag "ao" []
+  end.
+
+Fixpoint d_uvalue (s : sexp) : option uvalue :=
+  match s with
+  | SList (SAtom t :: args) =>
+      if String.eqb t "vb" then match args with [SStr x] => Some (UVBool x) | _ => None end
+      else if String.eqb t "vf" then match args with [SStr x; SStr r] => Some (UVFloat x r) | _ => None end
+      else if String.eqb t "vi" then match args with [SStr x] => Some (UVInt x) | _ => None end
+      else if String.eqb t "vs" then match args with [SStr x] => Some (UVStr x) | _ => None end
+      else if String.eqb t "vv" then option_map UVVector (omap d_uvalue args)
+      else if String.eqb t "va" then
+        option_map UVAttrs
+          (omap (fun a => match a with
+                          | SList [SAtom ta; SStr k; v] =>
+                              if String.eqb ta "av" then
+                                match v with
+                                | SAtom _ => Some (UAValue k None)
+                                | _ => option_map (fun x => UAValue k (Some x)) (d_uvalue v)
+                                end
+                              else None
+                          | SList [SAtom ta] => if String.eqb ta "ac" then Some UAConstraint
+                                                else if String.eqb ta "ao" then Some UAOther else None
+                          | _ => None
+                          end) args)
+      else None
+  | _ => None
+  end.
+
+Definition d_uattrs (s : sexp) : option (option (list uattr)) :=
+  match s with
+  | SAtom _ => Some None
+  | _ => match d_uvalue s with Some (UVAttrs l) => Some (Some l) | _ => None end
+  end.
+
+Definition e_gkind (k : gkind) : sexp :=
+  match k with
+  | GOr => SAtom "or" | GAlt => SAtom "alt" | GOpt => SAtom "opt" | GMand => SAtom "mand"
+  | GCard t => e_tag "card" [SStr t]
+  end.
+Definition d_gkind (s : sexp) : option gkind :=
+  match s with
+  | SAtom x => if String.eqb x "or" then Some GOr else if String.eqb x "alt" then Some GAlt
+               else if String.eqb x "opt" then Some GOpt else if String.eqb x "mand" then Some GMand else None
+  | SList [SAtom _; SStr t] => Some (GCard t)
+  | _ => None
+  end.
+
+Fixpoint e_ufeature (f : ufeature) : sexp :=
+  match f with
+  | UFeature ty ref fc at_ gs =>
+      e_tag "uf" [e_opt SStr ty; SStr ref; e_opt SStr fc;
+                  match at_ with Some l => e_uvalue (UVAttrs l) | None => SAtom "nil" end;
+                  SList (map (fun g => match g with
+                                       | UGroup k cs => e_tag "g" [e_gkind k; SList (map e_ufeature cs)]
+                                       end) gs)]
+  end.
+Definition d_optstr (s : sexp) : option (option string) :=
+  match s with SAtom _ => Some None | SStr x => Some (Some x) | _ => None end.
+Fixpoint d_ufeature (s : sexp) : option ufeature :=
+  match s with
+  | SList [SAtom _; ty; SStr ref; fc; at_; SList gs] =>
+      match d_optstr ty, d_optstr fc, d_uattrs at_,
+            omap (fun g => match g with
+                           | SList [SAtom _; k; SList cs] =>
+                               match d_gkind k, omap d_ufeature cs with
+                               | Some k', Some cs' => Some (UGroup k' cs')
+                               | _, _ => None
+                               end
+                           | _ => None
+                           end) gs with
+      | Some ty', Some fc', Some at', Some gs' => Some (UFeature ty' ref fc' at' gs')
+      | _, _, _, _ => None
+      end
+  | _ => None
+  end.
+
+Definition aggr_atom (a : aggr) : string :=
+  match a with AgSum => "sum" | AgAvg => "avg" | AgLen => "len" | AgFloor => "floor" | AgCeil => "ceil" end.
+Definition d_aggr (s : string) : option aggr :=
+  if String.eqb s "sum" then Some AgSum else if String.eqb s "avg" then Some AgAvg
+  else if String.eqb s "len" then Some AgLen else if String.eqb s "floor" then Some AgFloor
+  else if String.eqb s "ceil" then Some AgCeil else None.
+
+Fixpoint e_ucst (c : ucst) : sexp :=
+  match c with
+  | KLiteral r => e_tag "kl" [SStr r]
+  | KNot x => e_tag "kn" [e_ucst x]
+  | KBin o a b => e_tag "kb" [SAtom (astop_value o); e_ucst a; e_ucst b]
+  | KParen x => e_tag "kp" [e_ucst x]
+  | KInt t => e_tag "ki" [SStr t]
+  | KFloat t r => e_tag "kf" [SStr t; SStr r]
+  | KStr t => e_tag "ks" [SStr t]
+  | KAggr a refs => e_tag "ka" [SAtom (aggr_atom a); SList (map SStr refs)]
+  end.
+Fixpoint d_ucst (s : sexp) : option ucst :=
+  match s with
+  | SList (SAtom t :: args) =>
+      if String.eqb t "kl" then match args with [SStr r] => Some (KLiteral r) | _ => None end
+      else if String.eqb t "kn" then match args with [x] => option_map KNot (d_ucst x) | _ => None end
+      else if String.eqb t "kp" then match args with [x] => option_map KParen (d_ucst x) | _ => None end
+      else if String.eqb t "kb" then
+        match args with
+        | [SAtom o; a; b] => match astop_of_value o, d_ucst a, d_ucst b with
+                             | Some o', Some a', Some b' => Some (KBin o' a' b')
+                             | _, _, _ => None
+                             end
+        | _ => None
+        end
+      else if String.eqb t "ki" then match args with [SStr x] => Some (KInt x) | _ => None end
+      else if String.eqb t "kf" then match args with [SStr x; SStr r] => Some (KFloat x r) | _ => None end
+      else if String.eqb t "ks" then match args with [SStr x] => Some (KStr x) | _ => None end
+      else if String.eqb t "ka" then
+        match args with
+        | [SAtom a; SList refs] => match d_aggr a, omap d_str refs with
+                                   | Some a', Some r' => Some (KAggr a' r')
+                                   | _, _ => None
+                                   end
+        | _ => None
+        end
+      else None
+  | _ => None
+  end.
+
+Definition e_udoc (d : udoc) : sexp :=
+  e_tag "udoc" [e_opt e_ufeature (d_root d);
+                match d_ctcs d with Some l => SList (map e_ucst l) | None => SAtom "nil" end].
+Definition d_udoc (s : sexp) : option udoc :=
+  match s with
+  | SList [SAtom _; r; cs] =>
+      let root_ := match r with SAtom _ => Some None | _ => option_map Some (d_ufeature r) end in
+      let ctcs_ := match cs with
+                   | SAtom _ => Some None
+                   | SList l => option_map Some (omap d_ucst l)
+                   | _ => None
+                   end in
+      match root_, ctcs_ with
+      | Some r', Some c' => Some {| d_root := r'; d_ctcs := c' |}
+      | _, _ => None
       end
   | _ => None
   end.
